@@ -23,6 +23,7 @@ type Exec struct {
 	qInst         []func(idx string) string // instantiators of quantified hypotheses (see instantiateAt)
 	qDone         map[string]bool
 	qRegister     bool
+	lastSite      *CallSite   // the site of the call being executed (for `after call ... assume`)
 	assertHits    map[int]int // site assertion (index in the contract) -> number of call sites it matched
 	refBound      string      // allocation bound for references inside objects described by validFacts (default: entry)
 	envCalls      map[string]bool
